@@ -89,6 +89,14 @@ def make_flow(ctx, count):
         now = rng.choice([1, 1000, 123456, (1 << 32) - 30000, 1 << 40])
         s.add("NOW %d" % now)
         ops = []
+        degraded = i % 16 == 7
+        if degraded:
+            # the mapping engine came up without its timer block (its second allocation failed at start-up): there is no
+            # 30 s silence rule then, the sessions still expire after 60 s and the Hellos must stop with them
+            s.add("FAULT malloc 2 0")
+            s.add("AI 0")
+            s.add("CLEAR")
+            ops.append(("AI",))
         # half of the histories run beside a second interface of the same process (own automata, own sessions) that the
         # daemon's loop ticks first in every pass; its inputs are not judged
         shadow = i % 2 == 1
@@ -131,7 +139,7 @@ def make_flow(ctx, count):
                     fr = G.f_misc(rng, net)
                 s.frame(0, fr, op="W")
                 ops.append(("W", fr[15], fr[17], (fr[24:30], int.from_bytes(fr[32:34], "big")) if len(fr) >= 36 else None))
-        s.meta = dict(ops=ops, kind="flow", now=now, shadow=shadow)
+        s.meta = dict(ops=ops, kind="flow", now=now, shadow=shadow, degraded=degraded)
         scns.append(s)
     return scns
 
@@ -243,12 +251,14 @@ def monitor(scn, sobj, rep, sf, ck):
             if flow and last_frame is not None and inp.op == "K":
                 if now != clock:
                     rep.inconclusive.append("scenario %s input %d: the monitor's clock (%d) and the port's (%d) disagree" % (scn.sid, inp.n, clock, now))
-                elif now - last_frame >= 31000:
+                elif now - last_frame >= (62000 if sobj.meta.get("degraded") else 31000):
                     # 30 s without traffic drop the sessions; the tick that would send this Hello checks that first
                     bad("hello-after-30s-without-traffic", "send_hello at t=%d, last frame at t=%d (%d ms of silence), table reports %d "
                         "live sessions" % (now, last_frame, now - last_frame, valid), inp)
                 elif now - last_frame >= 20000:
                     seen.add("hello-late-in-the-silence")
+                    if sobj.meta.get("degraded") and now - last_frame >= 40000:
+                        seen.add("hello-late-in-the-silence-without-timer-block")
             if not in_tick:
                 bad("hello-outside-tick", "send_hello invoked outside automata_tick at t=%d" % now, inp)
             if incomplete < 1:
@@ -341,6 +351,6 @@ def run(ctx):
     rep.need("callbacks", c.get("callbacks", 0), 1000)
     rep.need("callbacks_flow", c.get("callbacks_flow", 0), 200)
     rep.need("ticks_beside_a_second_interface", c.get("ticks_beside_a_second_interface", 0), 1000)
-    for name in ("hello-with-a-booked-incomplete-session", "hello-late-in-the-silence", "suppressed-by-min-interval", "emptied-by-30s-inactivity", "emptied-by-60s-expiry", "pausing>wait",
+    for name in ("hello-late-in-the-silence-without-timer-block", "hello-with-a-booked-incomplete-session", "hello-late-in-the-silence", "suppressed-by-min-interval", "emptied-by-30s-inactivity", "emptied-by-60s-expiry", "pausing>wait",
                  "wait>quiescent", "paced-at-min-interval"):
         rep.need(name, c.get("reach:" + name, 0), 10)
